@@ -64,7 +64,7 @@ def classes_for(form, flex):
 
 @st.composite
 def case_strategy(draw, tier="quick"):
-    fam = draw(st.sampled_from(["data"] * 6 + ["wait_all", "fill_var_rec", "safe_meta", "safe_meta", "safe_meta", "varn_scalar"]))
+    fam = draw(st.sampled_from(["data"] * 6 + ["wait_all", "fill_var_rec", "safe_meta", "safe_meta", "safe_meta", "varn_scalar", "sync_indep"]))
     k = draw(st.sampled_from([2, 2, 3, 4]))
     safe = G.chance(draw, 20)
     aggr = draw(st.sampled_from([0, 0, 0, 1, 2]))
@@ -92,6 +92,10 @@ def case_strategy(draw, tier="quick"):
     elif fam == "varn_scalar":
         case["kind"] = draw(st.sampled_from(["put", "get"]))
         case["writer"] = draw(st.integers(0, k - 1))
+    elif fam == "sync_indep":
+        # records appended in independent mode by a subset of the ranks, then a collective synchronisation call by everybody
+        case["writers"] = sorted(draw(st.sets(st.integers(0, k - 1), min_size=0, max_size=k - 1)))
+        case["how"] = draw(st.sampled_from(["sync_numrecs", "sync_numrecs", "sync", "end_indep"]))
     return case
 
 
@@ -215,6 +219,8 @@ def build(case):
         build_fill(p, case, info)
     elif fam == "varn_scalar":
         build_varn_scalar(p, case, info)
+    elif fam == "sync_indep":
+        build_sync_indep(p, case, info)
     p.op("close", step=True, f="f0")
     return p, info
 
@@ -405,6 +411,36 @@ def build_fill(p, case, info):
         return out
     p.check(chk)
     p.op("fence", step=True, f="f0")
+
+
+def build_sync_indep(p, case, info):
+    """independent appends by some ranks, then ncmpi_sync_numrecs / ncmpi_sync / ncmpi_end_indep_data by all ranks: the call must
+    return everywhere and every rank must then see the same, largest record count"""
+    k, writers, how = case["k"], case["writers"], case["how"]
+    prefill(p, k, tag=1)
+    info["labels"].update(["sync_" + how, "writers_%d_of_%d" % (len(writers), k)])
+    info["nontrivial"] = 0 < len(writers) < k
+    p.op("begin_indep", step=True, f="f0")
+    for r in writers:
+        b = p.newbuf()
+        p.s.op("buf", ranks=[r], b=b, size=4 * Y, hex=struct.pack("%di" % Y, *row_vals(r, 3)))
+        p.op("data", ranks=[r], what="put_vara (independent append)", api="put", form="vara", coll=0, mt="int", f="f0", v=V_REC, start=[k + r, 0], count=[1, Y], buf=b)
+    p.op(how, step=True, f="f0", what=how + " after independent appends by ranks %s" % writers)
+    if how != "end_indep":
+        p.op("end_indep", step=True, f="f0")
+    want = k + (max(writers) + 1 if writers else 0)
+    nq = p.s.op("inq", f="f0", what="dimlen", v=0)
+
+    def chk(res):
+        out = []
+        for r in range(k):
+            e = res.get(nq, r)
+            got = e["r"][0] if e and e.get("rc") == 0 else None
+            if got != want:
+                out.append({"kind": "numrecs", "msg": "rank %d sees %s records after %s, expected %d (independent appends by ranks %s of %d)" % (r, got, how, want, writers, k),
+                            "sig": {"kind": "numrecs", "how": how}})
+        return out
+    p.check(chk)
 
 
 def build_varn_scalar(p, case, info):
